@@ -14,6 +14,18 @@ add("C01", "vp_sample",
     "Trusted: rustc/LLVM integer semantics, the i128 reference (8 lines), proptest, rayon. 48/64-bit sources are not exhausted.",
     "DESIGN.md §4 C01")
 
+add("C02", "vp_sample",
+    "bounded-exhaustive enumeration + proptest against a soft-float / exact-truncation reference",
+    "int->float: every value of the <=24-bit sources (thorough: <=32-bit), structured values of the wider ones, bit-compared with a soft-float round-to-nearest-even reference, plus the int->float->int round trip wherever the width fits the mantissa. float->int: every f32 bit pattern of [-1,1) in the thorough tier (one seed-chosen pattern per 64 in quick) x 12 targets, f64 by proptest over sign/exponent/mantissa plus the truncation decision points, compared with trunc(x*2^(bits-1)) on the decomposed float. f32->f64 over all 2^32 patterns (thorough), f64->f32 on random values, exact midpoints +-1ulp, the overflow threshold and the subnormal range.",
+    "Trusted: the soft-float reference (cross-checked against hardware casts at start-up), IEEE semantics of the host, rustc/LLVM. f64 sources are sampled, not exhausted.",
+    "DESIGN.md §4 C02")
+
+add("C15", "vp_sample (two build configurations)",
+    "bounded-exhaustive enumeration + proptest against exact i128 arithmetic, in two build configurations",
+    "All 2048^2 operand pairs of both 11-bit types for + - *, every i16 through new/From<i16>, Neg on every I11 value, boundary grids and overflow-biased proptest operands for the 20/24/48-bit types, every widening From impl (exhaustive for <=16-bit sources), ordering on boundary grids; run once with debug assertions + overflow checks (overflow must panic) and once without (result must be wrapped modulo 2^bits).",
+    "Trusted: i128 reference arithmetic, catch_unwind to observe panics. Wider types are sampled with structure.",
+    "DESIGN.md §4 C15")
+
 PENDING_REASON = "check not yet built in this round (design in DESIGN.md §4); nothing is claimed for it until its check is registered"
 
 def main():
